@@ -337,6 +337,18 @@ fn ecdh_key_parameters(cx: &mut Ctx) {
         let sp = sub.key.secret_params().clone();
         let SecretParams::Plain(PlainSecretParams::ECDH(ref secret)) = sp else { continue; };
         let PublicParams::ECDH(pp) = sub.key.public_key().public_params().clone() else { continue; };
+        // the wrapped session key: RFC 9580 11.5 pads the plaintext to a multiple of 8 octets with at least one octet of padding
+        // (a plaintext of 8k octets gets 8 more), RFC 3394 adds 8: for every plaintext length the primitive accepts
+        if ci % 2 == 0 {
+            let fp = sub.key.public_key().fingerprint();
+            for len in (1usize..=80).chain([231, 232, 233, 239]) {
+                let plain: Vec<u8> = (0..len).map(|i| (i * 7 + ci) as u8).collect();
+                let r = guarded(|| pgp::crypto::ecdh::encrypt(Rng::new(len as u64), &pp, fp.as_bytes(), &plain).ok().and_then(|v| if let pgp::types::PkeskBytes::Ecdh { encrypted_session_key, .. } = v { Some(encrypted_session_key.len()) } else { None }));
+                let want = (len / 8 + 1) * 8 + 8;
+                let (imp, pred) = match r { Ok(Some(n)) => (format!("wrapped={n} rfc={want}"), n == want), Ok(None) => ("refused".to_string(), false), Err(p) => (p, false) };
+                cx.out.case("", &[], &["ecdh-wrapped-length".into(), format!("{curve:?}"), len.to_string()], &imp, Some(pred), "ecdh-wrapped-length");
+            }
+        }
         for hash in [HashAlgorithm::Sha256, HashAlgorithm::Sha384, HashAlgorithm::Sha512] {
             for sym in [SymmetricKeyAlgorithm::AES128, SymmetricKeyAlgorithm::AES192, SymmetricKeyAlgorithm::AES256] {
                 let params = match &pp {
